@@ -98,6 +98,17 @@ func vOps(c *Calcium, w *vWorld, amounts []int) []vOp {
 			_, err := c.SetNode(ctx, &types.SetNodeOptions{Nodename: "b", Delta: true, Resources: vRes(vInt("capacity_change", 0, 1<<20)), Bypass: types.TriKeep})
 			return err
 		}},
+		{"remove-w1-w2", func() error { return drainRemove([]string{"w1", "w2"}) }},
+		{"remove-w2-w1", func() error { return drainRemove([]string{"w2", "w1"}) }},
+		{"dissociate-w2-w1", func() error {
+			ch, err := c.DissociateWorkload(ctx, []string{"w2", "w1"})
+			if err != nil {
+				return err
+			}
+			for range ch {
+			}
+			return nil
+		}},
 	}
 }
 
